@@ -4,10 +4,11 @@
   the C08 theorems are about.  Every tie is generic in the number type, so it holds for the Float interpretation that is run
   against the implementation and for the real interpretation of the theorems alike.  Core-only (no Mathlib).
 -/
+import BC.Lemmas.SrcTac
 import BC.Gen.Funcs
 import BC.Model.Atmo
 namespace BC.Props.C08
-open BC BC.Gen BC.Model
+open BC BC.Gen BC.Model BC.Lemmas
 set_option linter.unusedSectionVars false
 
 section
@@ -15,19 +16,19 @@ variable {α : Type} [Add α] [Sub α] [Mul α] [Div α] [Neg α] [OfScientific 
   [LT α] [DecidableLT α] [LE α] [DecidableLE α] [Fn α]
 
 /-- `Atmo.standard_temperature(altitude)` (raw °F of the returned quantity) -/
-theorem C08_src_standard_temperature (alt : α) : Src.standard_temperature alt = standardTemperatureF alt := rfl
+theorem C08_src_standard_temperature (alt : α) : Src.standard_temperature alt = standardTemperatureF alt := by src_tie [Src.standard_temperature, standardTemperatureF]
 /-- `Atmo.standard_pressure(altitude)` (raw value of the returned `Pressure.hPa(…)`) -/
 theorem C08_src_standard_pressure (alt : α) :
     Src.standard_pressure alt = mkRaw .Pressure (standardPressureHPa alt) .hPa := rfl
-theorem C08_src_machF (f : α) : Src.machF f = machF f := rfl
-theorem C08_src_machK (k : α) : Src.machK k = machK k := rfl
+theorem C08_src_machF (f : α) : Src.machF f = machF f := by src_tie [Src.machF, machF]
+theorem C08_src_machK (k : α) : Src.machK k = machK k := by src_tie [Src.machK, machK]
 /-- `Atmo.machC`: clamps at the lowest modelled temperature and defers to `machK` -/
 theorem C08_src_machC (c : α) :
-    Src.machC c = machK ((if c < -cDegreesCtoK then lowestTempC else c) + cDegreesCtoK) := rfl
+    Src.machC c = machK ((if c < -cDegreesCtoK then lowestTempC else c) + cDegreesCtoK) := by src_tie [Src.machC, machK, lowestTempC]
 /-- `Atmo.calculate_air_density(t, p, humidity)` with its three nested helpers inlined -/
-theorem C08_src_air_density (t p h : α) : Src.calculate_air_density t p h = airDensity t p h := rfl
-theorem C08_src_temperature_at (a : Atmo α) (x : α) : Src.temperature_at_altitude a x = a.temperatureAt x := rfl
-theorem C08_src_pressure_at (a : Atmo α) (x : α) : Src.pressure_at_altitude a x = a.pressureAt x := rfl
+theorem C08_src_air_density (t p h : α) : Src.calculate_air_density t p h = airDensity t p h := by src_tie [Src.calculate_air_density, airDensity]
+theorem C08_src_temperature_at (a : Atmo α) (x : α) : Src.temperature_at_altitude a x = a.temperatureAt x := by src_tie [Src.temperature_at_altitude, Atmo.temperatureAt]
+theorem C08_src_pressure_at (a : Atmo α) (x : α) : Src.pressure_at_altitude a x = a.pressureAt x := by src_tie [Src.pressure_at_altitude, Atmo.pressureAt, Atmo.pressureBase]
 /-- `get_density_factor_and_mach_for_altitude` (the only difference is where the `if` sits: around the pair or inside it) -/
 theorem C08_src_density_and_mach (a : Atmo α) (x : α) : some (Src.density_and_mach a x) = a.densityMachAt x := by
   unfold Src.density_and_mach Atmo.densityMachAt
